@@ -126,6 +126,7 @@ func init() {
 				cfg.Steps = r.Range(12, 60)
 				cfg.Straggler = 1 + r.Intn(cfg.N0)
 				cfg.StragglerP = []float64{0.03, 0.1, 0.2}[r.Intn(3)]
+				cfg.StragglerListens = r.Bool(0.5)
 				cfg.PSilence = 0
 				cfg.PCrash = 0
 				cfg.PJoin, cfg.PLeave, cfg.MaxJoins, cfg.MaxLeaves = 0, 0, 0, 0
